@@ -1514,7 +1514,7 @@ def family_step_corr(check, tier):
     names = {id(getattr(E, v)): v for v in E.__values__}
     lits = list(E.__values__) + ENUM_HOSTILE + rng.sample([n for n in dir(E)], 12)
     ec = {'enum_from_bytes': [], 'enum_from_element': []}
-    for soft in (True, False):
+    for soft in (True,):                  # C05 is about validator='soft'
         js = JsonDocument(validator='soft' if soft else None)
         xml = XmlDocument(validator='soft' if soft else None)
         for nill in (True, False):
@@ -1772,6 +1772,10 @@ def run(check):
         'translator harness/translate/facettypes.py (validate_string / validate_native of ModelBase, SimpleModel, Unicode, '
         'DateTime, Time and re_match_with_span -> Gen/FacetTypes.v; the statement shapes it pins: the naive-value rule of '
         'DateTime.validate_native and the fullmatch branch of re_match_with_span)',
+        'translator harness/translate/c05steps.py (statement-by-statement: the xsi:nil block of XmlDocument.from_element, '
+        '_get_xsi_target, EnumBase.validate_string, enum_base_from_bytes, enum_from_element; and what Decimal() is applied to in '
+        'decimal_from_unicode when the document carries a number -> Gen/C05Steps.v)',
+        'the Decimal() / str(Decimal) model of coq/Wire/Decimal.v with its round-trip lemma (C02) as the reader of the Decimal paths',
         'the Python reference predicates ref_conforms_* and the expectation tables of harness/c05.py (the specification as '
         'used by the direct oracle); lxml XMLSchema as the judge of lexical validity',
         'the date/time readers and printers of coq/C08/DtModel.v (tied and proved by C08) as the from_unicode of the date/time paths',
@@ -1783,7 +1787,13 @@ def run(check):
         'translator checks the class defaults)',
         'range bounds of DateTime are timezone-aware as the documentation demands (a naive bound raises TypeError in Python); '
         'UTC offsets are whole minutes; spyne.LOCAL_TZ has a fixed offset (read by the translator)',
-        'Decimal and Double ranges, Boolean, Duration, Uuid, Enum and the alternative document forms are decided by the '
+        'C05_decimal_number_is_text assumes CPython\'s shortest repr: str() of the float a sender writes for a decimal of at most '
+        '15 significant digits denotes that decimal (the oracle only sends numbers for which D(repr(float(text))) == D(text)); '
+        'Decimal literals with underscores, NaN and Infinity are outside the Decimal() model (they are refused by the code and '
+        'exercised by the oracle)',
+        'xsi_target is proved over an abstract description of the class pair (same original class, complex / array, subclass, '
+        'names); the correspondence computes that description from real classes',
+        'Double ranges, Boolean, Duration, Uuid and the alternative document forms are decided by the '
         'direct oracle only; Decimal total_digits / fraction_digits are not part of the property text and are not checked',
         'HttpRpc is driven through WSGI GET query strings only (werkzeug is absent: no form bodies)']
     check.regen(['numtypes', 'facettypes', 'c05steps'])
